@@ -36,8 +36,8 @@
    reports for text j at its own offset, the header-value span runs from the first byte of the first value to the last byte
    of the last one; commas inside quoted strings do not split.
    The star value: C09_star_value.  The P-Asserted-Identity list with the same values (PaiGen.v): C09_pai_list_general_values.
-   PARTIAL: white space inside quoted strings, commas inside the brackets, header counts at the list level for the
-   general shapes: render/parse oracle on values, lists and messages (offsets != 0, chunked, reused objects) and correspondence. *)
+   Quoted strings may contain white space (blanks, folds), commas and semicolons; bracketed URIs may contain commas.
+   PARTIAL: a lone CR or LF inside quotes, header counts at the message level for the general shapes: render/parse oracle on values, lists and messages (offsets != 0, chunked, reused objects) and correspondence. *)
 From Sipsp Require Import Harness IP4 Numbers Misc NameAddrSpec NameAddrParam ContactSpec Capacity UpperBound NestMsg SigCoherent HdrSpec TokItem NameAddrGen ContactGen PaiGen.
 Theorem C09_contact_expires_value : forall ds, all_digits ds -> expires_of ds = N.min (dec ds) MaxU32.
 Proof. exact contact_expires_saturates. Qed.
@@ -335,6 +335,29 @@ Theorem C09_general_values_have_no_star : forall h p L t i d nm i0 us lu g (n0 :
   fb_star (finW h d (t_apply p (i + nnat (length (its_bytes L))) t (its_state p i L (bB i0 lu g)))) = false /\
   fb_star (fD h nm i0 us lu) = false /\ fb_star (fB h i0 (nnat (length (n0 :: name)))) = false.
 Proof. intros. repeat split; try reflexivity; apply general_values_no_star; reflexivity. Qed.
+(* quoted strings (display names and parameter values): plain bytes, backslash escapes, and white space that the LWS skipper crosses
+   (blanks, folds); commas and semicolons inside do not matter.  URIs in brackets may contain commas too (uchar). *)
+Theorem C09_quoted_content_means : forall q, fqc q <->
+  q = [] \/
+  (exists c q', q = c :: q' /\ ccls_of c <> KDq /\ ccls_of c <> KBsl /\ ccls_of c <> KWs /\ fqc q') \/
+  (exists d q', q = (92 : byte) :: d :: q' /\ is_crlf d = false /\ fqc q') \/
+  (exists w q', q = w ++ q' /\ wsrun 0 w /\ fqc q' /\ (q' = [] \/ exists c q'', q' = c :: q'' /\ is_ws c = false)).
+Proof.
+  intros q. split.
+  - intros [|c q' H1 H2 H3 H4|d q' H1 H2|w q' H1 H2 H3]; [left; reflexivity|right; left; eauto 8|right; right; left; eauto|right; right; right; eauto 8].
+  - intros [->|[(c & q' & -> & H1 & H2 & H3 & H4)|[(d & q' & -> & H1 & H2)|(w & q' & -> & H1 & H2 & H3)]]];
+      [constructor|apply fqc_plain; assumption|apply fqc_esc; assumption|apply fqc_ws; assumption].
+Qed.
+Example C09_quoted_with_blank_and_comma : (* "A, B" - comma and blank inside the quotes *)
+  fqc [65;44;32;66] /\ Forall uchar [115;58;97;44;98] /\
+  parse_nameaddr HdrContact ((34 : byte) :: [65;44;32;66] ++ (34 : byte) :: [32] ++ (60 : byte) :: [115;58;97;44;98] ++ [62; 13; 10; 65]) 0 pfrom0
+  = Done 16 EOk (mkpfrom (mkpf 0 7) (mkpf 8 5) pf0 false false false HdrContact 0 0 pf0 (mkpf 0 14) EOk 0 FbFIN 0 0 0 0 0).
+Proof.
+  split; [|split; [repeat (constructor; [exact I|]); constructor|vm_compute; reflexivity]].
+  apply fqc_plain; [discriminate|discriminate|discriminate|]. apply fqc_plain; [discriminate|discriminate|discriminate|].
+  apply (fqc_ws [32] [66]); [apply wsrun_blanks; [discriminate|repeat constructor]|apply fqc_plain; [discriminate|discriminate|discriminate|apply fqc_nil]|].
+  right. exists 66, []. split; reflexivity.
+Qed.
 (* ---- the Contact list with general values ------------------------------------------------------------------------------------------------------ *)
 Theorem C09_contact_list_general_values : forall gs (junk sp : list byte) x tail n, gs <> [] -> Forall gv_ok gs -> spaces sp -> is_sp x = false ->
   let i := nnat (length junk) in
